@@ -63,7 +63,7 @@ FLIP = {
     'comment': ['/*', '*/', '/**/', '//', '/* x'],
     'slcomment': ['//', '/', '\n'],
 }
-CHARS = "aZ0_'\"-;:,()*/\n \t.=<>[]\\\x00é!"
+CHARS = "aZ0_'\"-;:,()*/\n \t.=<>[]\\\x00é!\x0c\x0b\xa0\u2028$#@"
 # "arbitrary strings": an opening delimiter that is never closed, followed by a long run of one short unit --
 # the shape on which an ambiguous token pattern back-tracks exponentially
 REDOS_OPEN = ['"', "'", '/*', '//', '(', '[', 'x = "', "select any a related by b->C[R1.'", '1.', '1e', 'a::', 'end ']
@@ -89,6 +89,8 @@ def enumerate_faults(text):
             for w in range(len(WS)):
                 if WS[w] != text[pos]:
                     out.append({'k': 'ws_flip', 'p': pos, 'w': w})
+    for c in range(len(TAIL)):
+        out.append({'k': 'tail', 'c': c})
     toks = [(k, a, b) for k, a, b in tokenize(text) if k != 'ws']
     for ti, (k, a, b) in enumerate(toks):
         out.append({'k': 'tok_del', 't': ti})
@@ -107,10 +109,16 @@ def enumerate_faults(text):
     return out
 
 
+TAIL = ['\x0c', '\x0b', '\xa0', '\u2028', '\x1c \n', '$', '\\', '\x00', ' \x0c  \n', '@\t', '"', "'", '/*', '//']
+
+
 def apply_fault(text, f):
     k = f['k']
     if k == 'trunc':
         return text[:f['p']]
+    if k == 'tail':
+        # garbage appended by a torn write of the *next* record: a stray character closes the text
+        return text + TAIL[f['c'] % len(TAIL)]
     if k == 'ws_flip':
         p = f['p']
         if p >= len(text) or text[p] not in WS:
